@@ -254,6 +254,9 @@ class BoundedStream:
                     # NOTE(kgriffs): The ASGI spec states that 'body' is optional.
                     num_bytes = 0
 
+                # NOTE: an oversized chunk only counts up to the declared length,
+                #   as in read() and when iterating.
+                num_bytes = min(num_bytes, self._bytes_remaining)
                 self._bytes_remaining -= num_bytes
                 self._pos += num_bytes
 
